@@ -10,7 +10,7 @@
 //     variable which the package may mutate (scheduling points of the
 //     cooperative scheduler).
 //
-// usage: vinstr <repo dir> <out dir>
+// usage: vinstr <repo dir> <out dir> [overlay.json to merge]
 package main
 
 import (
@@ -30,11 +30,23 @@ import (
 )
 
 func main() {
-	if len(os.Args) != 3 {
-		fmt.Fprintln(os.Stderr, "usage: vinstr <repo dir> <out dir>")
+	if len(os.Args) != 3 && len(os.Args) != 4 {
+		fmt.Fprintln(os.Stderr, "usage: vinstr <repo dir> <out dir> [overlay.json to merge]")
 		os.Exit(2)
 	}
 	repo, out := os.Args[1], os.Args[2]
+	extra := map[string]string{}
+	if len(os.Args) == 4 {
+		b, err := os.ReadFile(os.Args[3])
+		if err != nil {
+			die(err)
+		}
+		var ov struct{ Replace map[string]string }
+		if err := json.Unmarshal(b, &ov); err != nil {
+			die(err)
+		}
+		extra = ov.Replace
+	}
 	os.MkdirAll(out, 0o755)
 	if err := os.Chdir(repo); err != nil {
 		die(err)
@@ -342,6 +354,9 @@ func main() {
 	writeIfChanged(hooks, []byte(hooksSrc))
 	overlay[filepath.Join(repo, "bklv_hooks.go")] = hooks
 
+	for k, v := range extra {
+		overlay[k] = v
+	}
 	ov, _ := json.MarshalIndent(map[string]any{"Replace": overlay}, "", " ")
 	writeIfChanged(filepath.Join(out, "overlay.json"), ov)
 	sort.Strings(rangeSites)
